@@ -7,29 +7,29 @@ P = {
  "C01": ("Decides, for all paths of both flavours, the per-operation extent lemmas (bump, release, pop, drop, writer set) whose conjunction preserves the disjointness invariant; the induction over histories is a written argument (DESIGN Appendix A.1), not checked.",
          "MIR + std models; arithmetic over Z with overflow as separate obligations (C04); frame: node words written only by list code.", "3.C01",
          "affine value numbering + dominance over MIR (extent lemmas)"),
- "C02": ("Decides the CAS protocol clauses P1-P5 (success edges dominate hand-out, expected-value discipline, header before link, node word outside accessible ranges). Does not decide linearizability or stale-reader reuse; necessary, not sufficient.",
-         "No safe-memory-reclamation analysis; schedules are not explored.", "3.C02", "CAS-protocol dominance and term rules over MIR"),
+ "C02": ("Decides the CAS protocol clauses P1-P7 (success edges dominate hand-out, expected-value discipline, header before link, node word outside accessible ranges, frozen marked words, search coherence) and P8, the re-use (ABA) safety of the two-step pop: no version bits, no reclamation scheme, no re-validation - reported as a known finding with a gdb-forced double hand-out. Does not decide linearizability; necessary, not sufficient.",
+         "Schedules are not explored; P8 is a structural necessary condition, the demonstrating schedule was forced with gdb by a hunting sub-agent.", "3.C02", "CAS-protocol dominance and term rules over MIR"),
  "C03": ("Decides capacity and alignment terms on every Ok path (fresh and recycled, zero-size) with generic T symbolic, i.e. for all layouts.",
-         "alignUp axioms; backing-store base alignment trusted for mmap.", "3.C03", "affine value numbering + order prover (alignment/capacity terms)"),
+         "alignUp axioms (align_offset saturates at u32::MAX, C04-E6a); map backings: offset and maximum alignment are validated against the page alignment (A6, A7).", "3.C03", "affine value numbering + order prover (alignment/capacity terms)"),
  "C04": ("Decides read-only guard first, capacity guard dominance, no effect before any Err (single-thread projection), checked arithmetic on request sizes, enumerated panic sites, and that every Add/Sub/Mul and every narrowing cast of a type size reachable from the allocation entry points is bounded by guards / type widths or by a named arena invariant. Does not decide 'state exactly as before' beyond absence of effects.",
          "Arena invariants named in ARITH_JUSTIFIED (list / Meta extents below cap) are taken from C01 / C03 / C10.", "3.C04", "taint of request sizes to arithmetic sites + effect/dominance rules + order prover (Fourier-Motzkin) on every arithmetic site"),
  "C05": ("Decides the persistence discipline (state only in the in-file header, offsets only, reopen writes only above the stored cursor, caches derived from the file). Does not decide equality of observations across reopen over histories.",
          "OS page cache and memmap2 semantics.", "3.C05", "who-writes / provenance / effect rules over MIR"),
- "C06": ("Decides the order of persistent writes inside each operation and that reopen re-zeroes above the cursor; reports the unrecoverable mark window. Does not decide crash behaviour over crash points x histories.",
+ "C06": ("Decides the order of persistent writes inside each operation (incl. clear: unpublish before wipe; creation: header before identification bytes), that reopen validates the stored cursor and re-zeroes above it; reports the unrecoverable mark window. Does not decide crash behaviour over crash points x histories.",
          "Program order = persistence order for a killed process (shared mapping).", "3.C06", "write-ordering dominance rules + recovery reachability (call graph)"),
- "C07": ("Decides that every loop cycle carries a progress token and that every marker completes or undoes its mark. Does not decide termination under fairness in general.",
+ "C07": ("Decides that every loop cycle carries a progress token (a wait on a marker counts only if the cycle re-reads the link it followed), that every marker completes or undoes its mark, and that the marker value is unambiguous. Does not decide termination under fairness in general.",
          "Failed CAS => another thread progressed; list finite (C10).", "3.C07", "loop classification + mark/unlink pairing on CAS outcome edges"),
  "C08": ("Decides that every returned alloc_bytes buffer is zeroed over exactly its accessible extent on all paths, all backends.",
          "ptr::write_bytes model; exclusivity from C01/C02.", "3.C08", "must-pass-through (clear after last extent store) + term rule on Meta::clear"),
  "C09": ("Decides size-check-before-map, validation-dominates-writes, completeness of the validator against the writer's offsets, read-only constructor flags, ro-guard coverage of the safe mutating API.",
          "File::set_len extension only; user-requested truncate(true) out of scope.", "3.C09", "dominance on validation outcome edges + effect summaries + constant rules"),
- "C10": ("Decides the policy structure (comparators, head-pop/first-fit, fail-iff guards, remainder threshold, None arm, insertion loop shape). Well-formedness at quiescent points follows from C01's invariant by a written argument (Appendix A.2).",
+ "C10": ("Decides the policy structure (comparators, head-pop/first-fit, fail-iff guards, remainder threshold and policy, None arm, insertion loop shape) and that cursor-lowering operations keep the list below the cursor (F7: rewind does not - known finding). Well-formedness at quiescent points follows from C01's invariant by a written argument (Appendix A.2).",
          "-", "3.C10", "comparator/guard term rules + sibling agreement"),
  "C11": ("Decides agreement of guarded-effect summaries of paired sync/unsync functions under the single-thread projection of sync; tolerated differences listed by key.",
          "CAS = compare + store on one thread; failed pop is effect-free (C04-E3).", "3.C11", "sibling comparison of guarded-effect summaries"),
  "C12": ("Decides the minimal memory orderings per protocol role and acquire-before-unmount; each requirement has a written racy counter-execution (Appendix A.3); harmless sites unconstrained.",
          "C11 memory model reasoning is by hand; stale-reader hazard excluded (see C02).", "3.C12", "memory-ordering lattice per protocol role (data-flow roles)"),
- "C13": ("Decides drop/detach/to_owned pairing on every path, the refcount discipline, who may construct/free, and lifetime witnesses. refs() = live values follows by Rust's drop-exactly-once.",
+ "C13": ("Decides drop/detach/to_owned pairing on every path (incl. zero-sized values), the refcount discipline, who may construct/free, no double drop of owned fields, truncate only on an exclusively owned arena, and lifetime witnesses. refs() = live values follows by Rust's drop-exactly-once.",
          "No mem::forget of arenas by the user is assumed for 'released exactly once'.", "3.C13", "path-count dataflow on Drop/to_owned + who-may-call + compile-fail witnesses"),
  "C14": ("Decides guard-before-write for every writer, converter agreement for all 120 put/get bodies, align_to/put_aligned/set_len/varint terms, for symbolic len/capacity/T.",
          "dbutils::leb128 trusted.", "3.C14", "guard dominance + affine terms + resolved-callee agreement over macro-generated families"),
@@ -39,12 +39,12 @@ P = {
          "bitflags constants from the crate's own definitions.", "3.C16", "term agreement across sibling formula sites + provenance"),
  "C17": ("Decides per-path clamp terms and must-store of rewind, overflow-freedom of the Current arm, and the terms written by clear.",
          "0 <= data_offset <= cap.", "3.C17", "must-pass-through + clamp terms + taint"),
- "C18": ("Decides ro guard, floor, copy length, cap/ptr refresh, absence of header effects, &mut self exclusivity.",
+ "C18": ("Decides ro guard, floor, copy length, cap/ptr refresh, absence of header effects, exclusivity (refs() == 1), the u32 bound of the request, failure atomicity of the file arm and the copy-on-write mode.",
          "Re-map failure paths not judged.", "3.C18", "dominance + term + effect rules on truncate"),
  "C19": ("Decides that checksum feeds one hasher an ordered, gap-free, overlap-free cover of allocated_memory()[reserved..] for every length, page size and content: a symbolic consumed-position is propagated over the CFG with loop invariants checked at entry and over the back edge, exact product and div/mod arithmetic, and must equal data.len() at every return. Equality of the digest then rests on the streaming contract of Checksumer.",
          "Checksumer::update is a streaming fold (update(a); update(b) = update(a ++ b)); page_size() != 0; slice::chunks contract.", "3.C19", "position dataflow with checked loop invariants over MIR (ordered contiguous cover)"),
  "C20": ("Decides who writes discarded and by how much at each release class, accumulator = increments in discard_freelist, exit only on empty list.",
-         "Counter arithmetic modulo 2^32 out of scope.", "3.C20", "who-writes + increment terms + dominance"),
+         "The counter wraps at 2^32: reported by D7 as a known finding (not repaired).", "3.C20", "who-writes + increment terms + dominance"),
 }
 NA = {
 }
